@@ -491,6 +491,27 @@ fn patterns(rate: f64, frames: usize, seed: u64) -> Vec<(&'static str, Vec<f64>)
     // consecutive frequencies that are unequal but only one ulp apart (a slow glide; a value
     // wobbling between two neighbours): "unchanged up to rounding" is not "unchanged"
     let base = (0.25 * rate).to_bits();
+    // frequencies within two ulps of the rate itself (step within two ulps of 1, where phase + step
+    // rounds to exactly 1 or 2), of half and of twice the rate: every ordered pair of neighbours
+    // occurs, starting from phase 0
+    for (label, centre) in [("ulps_around_rate", rate), ("ulps_around_half_rate", 0.5 * rate), ("ulps_around_twice_rate", 2.0 * rate)] {
+        let near: Vec<f64> = (-2i64..=2).map(|d| f64::from_bits((centre.to_bits() as i64 + d) as u64)).collect();
+        let mut seq = Vec::with_capacity(frames);
+        let (mut i, mut j) = (0usize, 0usize);
+        while seq.len() < frames {
+            // walk all ordered pairs (i, j), each pair preceded by the exact centre (phase back near 0 for the rate itself)
+            seq.push(centre);
+            seq.push(near[i]);
+            seq.push(near[j]);
+            j += 1;
+            if j == near.len() {
+                j = 0;
+                i = (i + 1) % near.len();
+            }
+        }
+        seq.truncate(frames);
+        v.push((label, seq));
+    }
     v.push(("ulp_ramp", (0..frames).map(|i| f64::from_bits(base + i as u64)).collect()));
     v.push(("ulp_wobble_then_ramp_down", (0..frames).map(|i| if i < frames / 3 { f64::from_bits(base + (i % 2) as u64) } else { f64::from_bits(base - (i - frames / 3) as u64) }).collect()));
     v
